@@ -213,7 +213,8 @@ func (cp *MultihashPrimary) Get(blk types.Block) ([]byte, []byte, error) {
 	if err != nil {
 		return nil, nil, err
 	}
-	if key != nil && value != nil {
+	if key != nil {
+		// Found in a pool. The value may be nil if a nil value was stored.
 		return key, value, nil
 	}
 
